@@ -77,6 +77,9 @@ def quadratic_spline(
         inputs = (inputs - bottom) / (top - bottom)
     else:
         inputs = (inputs - left) / (right - left)
+    # Inputs that pass the domain check can still normalise to just outside [0, 1] by rounding (a box
+    # edge that is not representable in the working precision); keep them on the spline.
+    inputs = torch.clamp(inputs, 0, 1)
 
     num_bins = unnormalized_widths.shape[-1]
 
